@@ -13,6 +13,7 @@ CONSTANTS
   MaxOps = 0
   MaxPeerOps = 0
   MaxAdapt = 0
+  MaxAbandon = 0
   WithFile = FALSE
   Variants = {}
   AsyncPeer = FALSE
